@@ -302,8 +302,19 @@ def _b(s):
     return None if s == 'N' else (s == '1')
 
 
-def _rows_arg(s):
-    return [] if s == '.' else [bytearray(lib.unhx(r)) for r in s.split('/')]
+def _rows_arg(s, op=''):
+    """the block argument of set_sprite / set_rect_tiles: "an iterable of iterables".  The shape handed over is a
+    function of the op text (so a replay repeats it): a list of bytearrays, a generator of lists, a one-shot iterator
+    over tuples, a list of one-shot iterators"""
+    rows = [] if s == '.' else [bytearray(lib.unhx(r)) for r in s.split('/')]
+    shape = sum(op.encode()) % 4
+    if shape == 1:
+        return (list(r) for r in rows)
+    if shape == 2:
+        return iter([tuple(r) for r in rows])
+    if shape == 3:
+        return [iter(list(r)) for r in rows]
+    return rows
 
 
 def apply_op(g, op):
@@ -312,7 +323,7 @@ def apply_op(g, op):
     if k == 'gs':
         return g.gfx.get_sprite(int(a[1]), int(a[2]), int(a[3]))
     if k == 'ss':
-        return g.gfx.set_sprite(int(a[1]), _rows_arg(a[4]), tile_x_offset=int(a[2]), tile_y_offset=int(a[3]))
+        return g.gfx.set_sprite(int(a[1]), _rows_arg(a[4], op), tile_x_offset=int(a[2]), tile_y_offset=int(a[3]))
     if k == 'mgc':
         return g.map.get_cell(int(a[1]), int(a[2]))
     if k == 'msc':
@@ -322,7 +333,7 @@ def apply_op(g, op):
     if k == 'mgp':
         return g.map.get_rect_pixels(int(a[1]), int(a[2]), int(a[3]), int(a[4]))
     if k == 'msr':
-        return g.map.set_rect_tiles(_rows_arg(a[3]), int(a[1]), int(a[2]))
+        return g.map.set_rect_tiles(_rows_arg(a[3], op), int(a[1]), int(a[2]))
     if k == 'fg':
         return g.gff.get_flags(int(a[1]), int(a[2]))
     if k == 'fs':
